@@ -153,6 +153,13 @@ static void parseOut(const unsigned char* d, size_t n)
 }
 
 enum { maxDepth = 4096, nslots = 6 };
+// The tree under construction (ops open / attr / text / close) is built IN PLACE: `root` owns it, stack[k] points to the
+// open element of depth k inside it (a child is appended to its parent's content when it is opened; nothing else is
+// added to the parent until the child is closed, so the order of the content is the order of the ops).  The harness's
+// own cost of building a tree is thereby linear in its size whatever a copy of an Xml::Variant costs (shared block or
+// deep copy): the per-case watchdog times the library's parse / toString / copy of the tree, not a quadratic number of
+// copies made by the harness (a chain of 1000 open elements used to be folded bottom-up through 1000 nested copies).
+static Xml::Element* root = 0;
 static Xml::Element* stack[maxDepth];
 static int depth = 0;
 static Xml::Variant* slot[nslots];
@@ -165,7 +172,7 @@ static int heldSlot = -1;
 static void reset()
 {
   held = 0; heldSlot = -1;
-  while(depth > 0) delete stack[--depth];
+  delete root; root = 0; depth = 0;
   for(int i = 0; i < nslots; ++i) { delete slot[i]; slot[i] = 0; }
 }
 
@@ -206,14 +213,7 @@ static Xml::Element current()
     Xml::Element e; e.line = 0; e.column = 0;
     return e;
   }
-  Xml::Element cur(*stack[depth - 1]);
-  for(int i = depth - 2; i >= 0; --i)
-  {
-    Xml::Element parent(*stack[i]);
-    parent.content.append(Xml::Variant(cur));
-    cur = parent;
-  }
-  return cur;
+  return *root; // one copy of the whole tree
 }
 
 static bool slotOk(const char* t, int& i) { i = atoi(t); return i >= 0 && i < nslots; }
@@ -406,13 +406,22 @@ static void op(long c, long, vh::Tok& t)
     }
     free(text);
   } else if(!strcmp(o, "open")) {
-    if(depth < maxDepth) { Xml::Element* e = new Xml::Element; e->line = 0; e->column = 0; e->type = unhexs(t.v[1]); stack[depth++] = e; }
+    if(depth < maxDepth) {
+      Xml::Element e; e.line = 0; e.column = 0; e.type = unhexs(t.v[1]);
+      if(depth == 0) { delete root; root = new Xml::Element(e); stack[depth++] = root; }
+      else {
+        // the (empty) element is copied into the parent's content; the pointer is taken from the Variant stored there
+        Xml::Variant& v = stack[depth - 1]->content.append(Xml::Variant(e));
+        stack[depth] = &v.toElement();
+        ++depth;
+      }
+    }
   } else if(!strcmp(o, "attr")) {
     if(depth > 0) stack[depth - 1]->attributes.append(unhexs(t.v[1]), unhexs(t.v[2]));
   } else if(!strcmp(o, "text")) {
     if(depth > 0) stack[depth - 1]->content.append(Xml::Variant(unhexs(t.v[1])));
   } else if(!strcmp(o, "close")) {
-    if(depth > 1) { stack[depth - 2]->content.append(Xml::Variant(*stack[depth - 1])); delete stack[--depth]; }
+    if(depth > 1) --depth;
   } else if(!strcmp(o, "str")) {
     Xml::Element e = current();
     String s = Xml::toString(e);
